@@ -209,6 +209,7 @@ type vTrace struct {
 	T0     time.Time
 	Period time.Duration
 	ds     *AnySource
+	Refused int // "trylengths" requests that were refused
 }
 
 // vPipeAfterOp, when set, is called after every history operation with the model connection set.
@@ -245,6 +246,19 @@ func (c *vPipeCase) valid() bool {
 	}
 	for _, h := range c.Hist {
 		switch h.Kind {
+		case "trylengths":
+			if h.Npre < 3 || h.Nsamp < h.Npre+1 || h.Nsamp > 512 {
+				return false
+			}
+			refused := false
+			for _, t := range cur {
+				if !t.emtValid(h.Npre, h.Nsamp) {
+					refused = true
+				}
+			}
+			if !refused {
+				return false // the generator only offers lengths that must be refused
+			}
 		case "lengths":
 			if h.Npre < 3 || h.Nsamp < h.Npre+1 || h.Nsamp > 512 {
 				return false
@@ -368,6 +382,17 @@ func vRunPipe(c *vPipeCase, observe func(tr *vTrace, k int, recs []*DataRecord) 
 				npre, nsamp = h.Npre, h.Nsamp
 				for ch := range epoch {
 					epoch[ch] = pos
+				}
+			case "trylengths":
+				// lengths that (by the documented validity rule) some edge-multi channel cannot work with: the request must be
+				// refused as a whole and then change nothing on any channel; were it accepted, it is an ordinary length change
+				if err := ds.ConfigurePulseLengths(h.Nsamp, h.Npre); err == nil {
+					npre, nsamp = h.Npre, h.Nsamp
+					for ch := range epoch {
+						epoch[ch] = pos
+					}
+				} else {
+					tr.Refused++
 				}
 			case "connect", "disconnect":
 				gts := GroupTriggerState{Connections: map[int][]int{h.Src: append([]int(nil), h.Rx...)}}
